@@ -279,6 +279,13 @@ def check(case):
         res.fail("C19.set_last_datetime", "set_init_datetime=False changed init_datetime", sig="noset")
     if r + (p.time - 1) * unit != last:
         res.fail("C19.set_last_datetime", "returned init %s + (time-1)*unit != %s" % (r, last), sig="value")
+    # the query form with a unit of its own: the returned start date is for THAT unit
+    unit3 = datetime.timedelta(seconds=case["unit_s"] * 3 + 7)
+    r = p.set_last_datetime(last, unit_timedelta=unit3, set_init_datetime=False)
+    if p.init_datetime != init:
+        res.fail("C19.set_last_datetime", "set_init_datetime=False (with a unit) changed init_datetime", sig="noset")
+    if r + (p.time - 1) * unit3 != last:
+        res.fail("C19.set_last_datetime", "query with unit %s: returned init %s + (time-1)*unit != %s" % (unit3, r, last), sig="value_unit")
     unit2 = datetime.timedelta(seconds=case["unit_s"] * 2)
     r = p.set_last_datetime(last, unit_timedelta=unit2)
     if p.init_datetime != r or p.unit_timedelta != unit2 or p.init_datetime + (p.time - 1) * p.unit_timedelta != last:
